@@ -398,7 +398,16 @@ func c02Cookie(c *Ctx, key []byte, real, host, ip, at string, realExp int64, now
 		// signature character leaves the signature bytes unchanged
 		ok := codec.VerifyHS256(mut, key)
 		tOK, dc := timeOK(realExp)
-		return cookieTrial{kind: fmt.Sprintf("mutate:%s[%d]", []string{"header", "payload", "signature"}[si], i), cookie: mut, accept: ok && tOK, dc: dc && ok}
+		// a change in the unused low bits of a segment's last character leaves the decoded
+		// octets unchanged: the same token in a non-canonical spelling.  Libraries differ on
+		// whether the MAC input is the text as given or the re-encoded octets; not asserted.
+		orig := strings.Split(real, ".")
+		if a, e1 := codec.UnB64(orig[si]); e1 == nil {
+			if b, e2 := codec.UnB64(segs[si]); e2 == nil && string(a) == string(b) {
+				dc = true
+			}
+		}
+		return cookieTrial{kind: fmt.Sprintf("mutate:%s[%d]", []string{"header", "payload", "signature"}[si], i), cookie: mut, accept: ok && tOK, dc: dc}
 	case 8:
 		return cookieTrial{kind: "other-key", cookie: hs(base(), "HS256", []byte("another-key-another-key-another-k"), "")}
 	case 9:
